@@ -1,2 +1,23 @@
 """Matchers for known_findings.json entries: each takes (case, impl, model, spec) and decides whether the
 disagreement belongs to the *specific* recorded class (so other violations of the same property still alarm)."""
+
+
+def f14_rem_uint_width(case, impl, model, spec):
+    """F14: Int::div_rem_uint_vartime / rem_uint_vartime return the remainder as Int<RHS_LIMBS>; with a divisor
+    type narrower than the dividend and a divisor >= 2^(64*RHS-1) the true remainder does not fit and is
+    returned reinterpreted. Matches exactly: R < L and sign(n)*(|n| mod d) outside [-2^(64R-1), 2^(64R-1))."""
+    if spec != 'err 1' or impl != model:
+        return False
+    n_l, d_l = case.args[0], case.args[1]
+    L, R = len(n_l), len(d_l)
+    if not R < L:
+        return False
+    n = sum(w << (64 * i) for i, w in enumerate(n_l))
+    d = sum(w << (64 * i) for i, w in enumerate(d_l))
+    if d == 0:
+        return False
+    if n >= 1 << (64 * L - 1):
+        n -= 1 << (64 * L)
+    r = abs(n) % d
+    r = r if n >= 0 else -r
+    return not (-(1 << (64 * R - 1)) <= r < (1 << (64 * R - 1)))
